@@ -23,17 +23,22 @@
 //
 //	[1,s] Subscribe(subscriber s) (ignored when subscribed)   [2,m] Publish(m)
 //	[6,s] call s's cancel func (ignored when not subscribed)   [3] [4] [5] as above
+//	[7] schedule a callback that blocks until released directly on the PubSub's own serializer
+//	    (private field cs, reached with reflect+unsafe), so that everything published afterwards
+//	    stays queued: the run goroutine lags   [8] release the blocked callback
 //	obs = [5,s,m] per OnMessage during this op (stably sorted by s: Publish ranges over a
 //	      map), then [4,0,0] when Done() is first observed closed
 package serializer
 
 import (
 	"context"
+	"reflect"
 	"sort"
 	"sync"
 	"testing"
 	"testing/synctest"
 	"time"
+	"unsafe"
 
 	"google.golang.org/grpc/internal/buffer"
 	"google.golang.org/grpc/internal/grpcsync"
@@ -242,12 +247,14 @@ type vSerializerSub struct {
 func (s *vSerializerSub) OnMessage(msg any) { s.lg.add(5, s.id, msg.(int64)) }
 
 func vSerializerExec3(ops [][]int64) (obs [][]int64, nt bool, tags []string) {
-	deliveries, unsubs := 0, 0
+	deliveries, unsubs, lagged := 0, 0, false
 	synctest.Test(vSerializerT, func(t *testing.T) {
 		ctx := vSerializerNewCtx()
 		ps := grpcsync.NewPubSub(ctx)
 		synctest.Wait()
 		lg := &vSerializerLog{}
+		cs := *(**grpcsync.CallbackSerializer)(unsafe.Pointer(reflect.ValueOf(ps).Elem().FieldByName("cs").UnsafeAddr()))
+		gate := make(chan struct{})
 		objs := map[int64]*vSerializerSub{}
 		cancels := map[int64]func(){}
 		doneSeen := false
@@ -268,6 +275,14 @@ func vSerializerExec3(ops [][]int64) (obs [][]int64, nt bool, tags []string) {
 					c()
 					delete(cancels, op[1])
 					unsubs++
+				}
+			case len(op) == 1 && op[0] == 7:
+				cs.TrySchedule(func(context.Context) { <-gate })
+				lagged = true
+			case len(op) == 1 && op[0] == 8:
+				select {
+				case gate <- struct{}{}:
+				default:
 				}
 			case len(op) == 1 && vSerializerCtxOp(ctx, op[0]):
 			default:
@@ -298,9 +313,24 @@ func vSerializerExec3(ops [][]int64) (obs [][]int64, nt bool, tags []string) {
 		}
 		ctx.vCancel()
 		ctx.vFire()
-		synctest.Wait()
+		for i := 0; i < len(ops)+4; i++ {
+			synctest.Wait()
+			select {
+			case <-ps.Done():
+				return
+			default:
+			}
+			select {
+			case gate <- struct{}{}:
+			default:
+			}
+		}
 	})
-	return obs, deliveries >= 3 && unsubs >= 1, []string{"pubsub"}
+	tags = []string{"pubsub"}
+	if lagged {
+		tags = append(tags, "lagging-queue")
+	}
+	return obs, deliveries >= 3 && unsubs >= 1, tags
 }
 
 func vSerializerExec(cfg []int64, ops [][]int64) ([][]int64, bool, []string) {
@@ -393,13 +423,28 @@ func vSerializerGen(r *vRand, tier string, idx int) ([]int64, [][]int64) {
 		switch j {
 		case 0:
 			ops = [][]int64{{2, 1}, {1, 1}, {2, 2}, {1, 2}, {2, 3}, {6, 1}, {2, 4}, {1, 1}, {2, 5}, {5}, {2, 6}, {1, 3}}
+		case 1: // lagging queue: publish, unsubscribe before the callbacks run, release
+			ops = [][]int64{{1, 1}, {1, 2}, {7}, {2, 1}, {2, 2}, {6, 1}, {2, 3}, {8}, {2, 4}, {7}, {1, 3}, {2, 5}, {6, 2}, {5}, {2, 6}, {8}}
+		case 2: // re-subscription of the same Subscriber object while its old callbacks are queued (clause 11)
+			ops = [][]int64{{1, 1}, {7}, {2, 1}, {2, 2}, {6, 1}, {1, 1}, {8}}
 		default:
 			n := 20 + r.Intn(30)
 			pc := r.PickInt(0, 2, 4)
+			lag := j%2 == 1
+			fresh := int64(10) // with a lagging queue subscriber ids are never reused
 			for i := 0; i < n; i++ {
 				x := r.Intn(100)
 				s := int64(1 + r.Intn(5))
 				switch {
+				case lag && x < 8:
+					ops = append(ops, []int64{7})
+				case lag && x < 20:
+					ops = append(ops, []int64{8})
+				case lag && x < 32:
+					fresh++
+					ops = append(ops, []int64{1, fresh})
+				case lag && x < 45:
+					ops = append(ops, []int64{6, fresh - int64(r.Intn(3))})
 				case x < 25:
 					ops = append(ops, []int64{1, s})
 				case x < 70:
